@@ -324,9 +324,15 @@ def gen_shape_images(rng, n):
         elif r < 0.45:
             a = rng.choice([[0.0, 1.0, 1.0, 0.0], [-1.0, 0.0, 0.0, 1.0], [1.0, 0.0, 0.0, -1.0], [0.6, 0.8, 0.8, -0.6]]) + [rng.uniform(-5, 5), rng.uniform(-5, 5)]
             st = 'reflection'
-        elif r < 0.55:
+        elif r < 0.5:
             a = [1.0, 0.0, 0.0, 1.0, 0.0, 0.0]
             st = 'identity'
+        elif r < 0.6:
+            # exactly diagonal maps: uniform and non-uniform scales of either sign (a negative uniform scale is a half turn)
+            sx = rng.choice([-2.0, -1.0, -0.5, 0.5, 3.0])
+            sy = sx if rng.random() < 0.6 else rng.choice([-2.0, -1.0, 0.5, 3.0])
+            a = [sx, 0.0, 0.0, sy, rng.uniform(-5, 5), rng.uniform(-5, 5)]
+            st = 'diagonal'
         else:
             while True:
                 a = [rng.uniform(-3, 3) for _ in range(6)]
